@@ -71,8 +71,14 @@ def fbits(f):
     return struct.unpack(">Q", struct.pack(">d", f))[0]
 
 
+class BigLit(int):
+    """An integer literal outside [-2^63, 2^64): written with all its digits in the text, a float in the tree."""
+
+
 def jt(v):
     """python value -> <json> token (ints must fit u64/i64: anything else has to be a float already)."""
+    if isinstance(v, BigLit):
+        return "d%016x" % fbits(float(int(v)))
     if v is None:
         return "n"
     if v is True:
@@ -644,7 +650,7 @@ def render(v, rng):
         if x is False:
             return "false"
         if isinstance(x, int):
-            return str(x)
+            return str(int(x))
         if isinstance(x, float):
             t = repr(x)
             if "e+" in t:
@@ -719,15 +725,9 @@ def cases(rng, tier):
             if rng.chance(1, 25):
                 # an integer literal beyond u64 / below i64: serde_json keeps it as a float
                 big = rng.choice([U64_MAX + 1, I64_MIN - 1, 10 ** 25, -10 ** 30, 123456789012345678901234567890])
-                f = rng.choice([n for n, _ in fields])
-                payload[f] = float(big)
-                text, plus = render(payload, rng)
-                text = text.replace(repr(float(big)), str(big), 1) if repr(float(big)) in text else text
+                payload[rng.choice([n for n, _ in fields])] = BigLit(big)
                 muts = muts + ["bigint"]
-                if "e+" not in text and "E+" not in text:
-                    plus = False
-            else:
-                text, plus = render(payload, rng)
+            text, plus = render(payload, rng)
             if plus:
                 muts = muts + ["plusexp"]
             if has_brace(payload):
@@ -756,8 +756,11 @@ def run_sides(cases_, model_ok, tmo=1700):
     the reads cross flushes (passive buffers, segments); a case whose two answers differ gets ' FLUSH=<answer>'
     appended, which both the diff and the oracle report."""
     lines = [c["line"] for c in cases_]
+    # engine directories on tmpfs when there is one: the flushing pass creates (and the cleanup deletes) a
+    # few hundred thousand small files, which is slow on a disk mounted with discard
     os.makedirs(vlib.WORK, exist_ok=True)
-    d = tempfile.mkdtemp(prefix="c06-", dir=vlib.WORK)
+    base_dir = "/dev/shm" if os.path.isdir("/dev/shm") and os.access("/dev/shm", os.W_OK) else vlib.WORK
+    d = tempfile.mkdtemp(prefix="c06-", dir=base_dir)
     try:
         # an unfiltered QUERY scans the whole memtable of a shard, so the cost per process is quadratic in its
         # number of cases: many short-lived processes (run_lines caps them at one per 50 cases)
